@@ -68,6 +68,9 @@ func c09Gen(r *driver.Rand, thorough bool) *driver.Plan {
 	if r.Chance(1, 2) {
 		p.PreemptN = driver.Pick(r, 2, 3, 5)
 	}
+	if p.CancelStep < 0 && p.CancelMs == 0 && !p.CancelAtEnd && r.Chance(1, 6) {
+		p.SetX("uses", 2)
+	}
 	return p
 }
 
@@ -112,7 +115,9 @@ func c09Enum(thorough bool) []*driver.Plan {
 	return out
 }
 
-func c09Build(e *driver.Env) { e.Data = BuildStage(e, "C09.b") }
+func c09BuildOne(e *driver.Env) { e.Data = BuildStage(e, "C09.b") }
+
+func c09Build(e *driver.Env) { driver.Phased(e, c09BuildOne, c09Final) }
 
 func c09Final(e *driver.Env) {
 	s := e.Data.(*Sys)
